@@ -240,6 +240,10 @@ class T:
             return T.const("usize", len(t.args[0]))
         if t.op == "unsize":
             return T.const("usize", t.args[1])
+        if t.op == "proj" and t.args[1][0] == "f" and t.args[0].op == "call" and t.args[0].args[0] == "[T]::split_at":
+            s, m = t.args[0].args[2]
+            if t.args[1][1] == 0:
+                return m  # the first half of split_at(s, mid) has length mid (the call returned, so mid <= len)
         return Term("len", t)
 
     @staticmethod
